@@ -66,71 +66,6 @@ theorem table_general_decomp (cfg : Cfg) (ok : CfgOk cfg) (to : TableOpts) (cols
     (by intro h; apply hne; have := congrArg List.length h; rw [hlen] at this; exact List.eq_nil_of_length_eq_zero (by simpa using this))
     hmeas (fun tw h => hwd tw h) ws0 h0 hl hp hbud
 
-theorem good_table (cfg : Cfg) (ok : CfgOk cfg) (to : TableOpts) (cols : List Col) : Good cfg (.table to cols) := by
-  intro o w _ hs hd
-  rw [render]
-  rw [Dom] at hd
-  obtain ⟨ht, hc, hcase⟩ := hd
-  rw [smin] at hs
-  have hlen := colsR_length cfg cols
-  have hsc := sminCols_ge_length cfg.cw to cols
-  have hex := tableExtra_subst cfg.env to cols.length
-  -- title ++ body ++ caption, whatever the number of columns
-  have key : tableConsole cfg (to.subst cfg.env) o (colsR cfg cols) w = cfg.poison ∨
-      ∃ (tw : Int) (body : List Seg), tw ≤ (w : Int) ∧
-        tableConsole cfg (to.subst cfg.env) o (colsR cfg cols) w =
-          annotation cfg to.title to.titleJustify o tw ++ body ++ annotation cfg to.caption to.captionJustify o tw ∧
-        (∀ l ∈ splitLines body, lineLength cfg.cw l ≤ w) ∧ Closed body := by
-    rcases hcase with ⟨hfree, hwd⟩ | ⟨hne, hmin, hr, hb⟩
-    · cases hcols : cols with
-      | nil =>
-        rw [colsR_nil]
-        have := tableConsole_nil_decomp cfg ok.hcw (to.subst cfg.env) o w (by
-          rw [hcols] at hs hex; simp only [List.length_nil] at hs hex; rw [hex]; omega)
-        exact this
-      | cons c0 cs =>
-        right
-        rw [← hcols]
-        exact tableConsole_decomp cfg ok.hcw ok.hfl (to.subst cfg.env) o (colsR cfg cols) w
-          (by intro h; have := congrArg List.length h; rw [hlen, hcols] at this; simp at this)
-          (by
-            intro c hc'
-            obtain ⟨x, hx, rfl⟩ := colsR_mem cfg cols c hc'
-            rw [colR_o]
-            exact hfree x hx)
-          (colsR_meas cfg cols)
-          (by rw [hlen, hex]; omega)
-          (by
-            intro tw' htw'
-            rw [hlen, hex]
-            have htw'' : to.width = some tw' := htw'
-            have := hwd tw' htw''
-            rw [htw''] at hs
-            simp only [Option.getD_some] at hs
-            constructor <;> omega)
-    · right
-      obtain ⟨tw, body, htw, heq, hlines, hclosed⟩ := table_general_decomp cfg ok to cols o w hne
-        (by intro tw' h; rw [h] at hs; simp only [Option.getD_some] at hs; omega) hr hb
-      have hF : (toTable cfg (to.subst cfg.env) (colsR cfg cols)).floorSum = 0 := by
-        apply tb_floorSum_zero
-        intro c hc'
-        obtain ⟨x, hx, rfl⟩ := colsR_mem cfg cols c hc'
-        rw [colR_o]
-        exact hmin x hx
-      rw [hF] at htw hlines
-      refine ⟨tw, body, by omega, heq, ?_, hclosed⟩
-      intro l hl
-      have := hlines l hl
-      omega
-  rcases key with h | ⟨tw, body, htw, heq, hlines, hclosed⟩
-  · rw [h, ok.hp]; exact ⟨fits_nil _ _, fun _ => closed_nil⟩
-  · rw [heq]
-    obtain ⟨hf1, hc1⟩ := ann_fits cfg ok to.title to.titleJustify o tw w htw ht
-    obtain ⟨hf2, hc2⟩ := ann_fits cfg ok to.caption to.captionJustify o tw w htw hc
-    have hfb := fits_of_lines_le _ _ _ hlines
-    exact ⟨fits_append _ _ _ _ (closed_append _ _ hc1 hclosed) (fits_append _ _ _ _ hc1 hf1 hfb) hf2,
-      fun _ => closed_append _ _ (closed_append _ _ hc1 hclosed) hc2⟩
-
 /-- **The precise bound for a table with arbitrary columns, a binding `min_width` included**: within `tableBudget` no line of the table
 is wider than the available width plus `floorSum` — the `min_width + padding` floors of the columns that have a `min_width` and no
 fixed `width` (C07 `min_width_overflows` shows the bound attained). -/
@@ -151,38 +86,145 @@ theorem table_general_bound (cfg : Cfg) (ok : CfgOk cfg) (to : TableOpts) (cols 
   have hfb : Fits cfg.cw (w + F.toNat) body := fits_of_lines_le _ _ _ (fun l hl => by have := hlines l hl; omega)
   exact fits_append _ _ _ _ (closed_append _ _ hc1 hclosed) (fits_append _ _ _ _ hc1 hf1 hfb) hf2
 
+/-- with an explicit `Table(width=tw)` the rendering does not depend on the available width -/
+theorem tableConsole_width_indep (cfg : Cfg) (o : TableOpts) (opts : Opts) (cols : List ColS) (w w' : Nat) (tw : Nat)
+    (h : o.width = some tw) : tableConsole cfg o opts cols w = tableConsole cfg o opts cols w' := by
+  have hw : ∀ x : Nat, (toTable cfg o cols).width.getD (x : Int) = (tw : Int) := by
+    intro x
+    have : (toTable cfg o cols).width = o.width.map Int.ofNat := rfl
+    rw [this, h]; rfl
+  unfold tableConsole
+  simp only [hw]
+
+theorem tableBudget_width_indep (cfg : Cfg) (o : TableOpts) (cols : List ColS) (w w' : Nat) (tw : Nat)
+    (h : o.width = some tw) : tableBudget cfg o cols w → tableBudget cfg o cols w' := by
+  have hw : ∀ x : Nat, (toTable cfg o cols).width.getD (x : Int) = (tw : Int) := by
+    intro x
+    have : (toTable cfg o cols).width = o.width.map Int.ofNat := rfl
+    rw [this, h]; rfl
+  unfold tableBudget
+  simp only [hw]
+  exact id
+
+theorem subst_width (env : Env) (o : TableOpts) : (o.subst env).width = o.width := rfl
+
+theorem good_table (cfg : Cfg) (ok : CfgOk cfg) (to : TableOpts) (cols : List Col) : Good cfg (.table to cols) := by
+  intro o w _ hd
+  rw [render, smin]
+  rw [Dom] at hd
+  obtain ⟨ht, hc, hcase⟩ := hd
+  have hlen := colsR_length cfg cols
+  have hsc := sminCols_ge_length cfg.cw to cols
+  have hex := tableExtra_subst cfg.env to cols.length
+  -- the width the table is really laid out for: its own `width`, else the one on offer
+  generalize hB : max w (max 1 (max (tableExtra to cols.length + sminCols cfg.cw to cols) (to.width.getD 0))) = B
+  have key : tableConsole cfg (to.subst cfg.env) o (colsR cfg cols) w = cfg.poison ∨
+      ∃ (tw : Int) (body : List Seg), tw ≤ (B : Int) ∧
+        tableConsole cfg (to.subst cfg.env) o (colsR cfg cols) w =
+          annotation cfg to.title to.titleJustify o tw ++ body ++ annotation cfg to.caption to.captionJustify o tw ∧
+        (∀ l ∈ splitLines body, lineLength cfg.cw l ≤ B) ∧ Closed body := by
+    -- W = the width to apply the decomposition lemmas at
+    have hW : ∃ W : Nat, w ≤ W ∧ W ≤ B ∧ to.width.getD W = to.width.getD w ∧ (∀ tw, to.width = some tw → tw ≤ W) ∧
+        tableConsole cfg (to.subst cfg.env) o (colsR cfg cols) w = tableConsole cfg (to.subst cfg.env) o (colsR cfg cols) W ∧
+        (tableBudget cfg (to.subst cfg.env) (colsR cfg cols) w → tableBudget cfg (to.subst cfg.env) (colsR cfg cols) W) := by
+      cases hwd : to.width with
+      | none => exact ⟨w, Nat.le_refl _, by omega, rfl, (fun tw h => by cases h), rfl, id⟩
+      | some tw =>
+        refine ⟨max w tw, by omega, ?_, rfl, (fun tw' h => by cases h; omega), ?_, ?_⟩
+        · rw [hwd] at hB; simp only [Option.getD_some] at hB; omega
+        · exact tableConsole_width_indep cfg (to.subst cfg.env) o (colsR cfg cols) w (max w tw) tw (by rw [subst_width, hwd])
+        · exact tableBudget_width_indep cfg (to.subst cfg.env) (colsR cfg cols) w (max w tw) tw (by rw [subst_width, hwd])
+    obtain ⟨W, hwW, hWB, hgetD, hWtw, hcon, hbud⟩ := hW
+    rw [hcon]
+    rcases hcase with ⟨hfree, hroom⟩ | ⟨hne, hmin, hr, hb⟩
+    · cases hcols : cols with
+      | nil =>
+        rw [colsR_nil]
+        rcases tableConsole_nil_any cfg ok.hcw (to.subst cfg.env) o W with h | ⟨tw, body, h1, h2, h3, h4⟩
+        · exact Or.inl h
+        · right
+          have hE : tableExtra (to.subst cfg.env) 0 ≤ B := by
+            rw [hcols] at hex hB; simp only [List.length_nil] at hex hB; rw [hex]; omega
+          exact ⟨tw, body, by omega, h2, fun l hl => Nat.le_trans (h3 l hl) hE, h4⟩
+      | cons c0 cs =>
+        right
+        rw [← hcols]
+        have hroom' : tableExtra to cols.length + cols.length ≤ to.width.getD w := by
+          rcases hroom with h | h
+          · rw [h] at hcols; cases hcols
+          · exact h
+        obtain ⟨tw, body, h1, h2, h3, h4⟩ := tableConsole_decomp cfg ok.hcw ok.hfl (to.subst cfg.env) o (colsR cfg cols) W
+          (by intro h; have := congrArg List.length h; rw [hlen, hcols] at this; simp at this)
+          (by
+            intro c hc'
+            obtain ⟨x, hx, rfl⟩ := colsR_mem cfg cols c hc'
+            rw [colR_o]
+            exact hfree x hx)
+          (colsR_meas cfg cols)
+          (by
+            rw [hlen, hex]
+            cases hwd : to.width with
+            | none => rw [hwd] at hroom'; simp only [Option.getD_none] at hroom'; omega
+            | some tw => rw [hwd] at hroom'; simp only [Option.getD_some] at hroom'; have := hWtw tw hwd; omega)
+          (by
+            intro tw' htw'
+            rw [hlen, hex]
+            have htw'' : to.width = some tw' := htw'
+            rw [htw''] at hroom'
+            simp only [Option.getD_some] at hroom'
+            exact ⟨hWtw tw' htw'', hroom'⟩)
+        exact ⟨tw, body, by omega, h2, fun l hl => Nat.le_trans (h3 l hl) hWB, h4⟩
+    · right
+      obtain ⟨tw, body, htw, heq, hlines, hclosed⟩ := table_general_decomp cfg ok to cols o W hne hWtw hr (hbud hb)
+      have hF : (toTable cfg (to.subst cfg.env) (colsR cfg cols)).floorSum = 0 := by
+        apply tb_floorSum_zero
+        intro c hc'
+        obtain ⟨x, hx, rfl⟩ := colsR_mem cfg cols c hc'
+        rw [colR_o]
+        exact hmin x hx
+      rw [hF] at htw hlines
+      refine ⟨tw, body, by omega, heq, ?_, hclosed⟩
+      intro l hl
+      have := hlines l hl
+      omega
+  rcases key with h | ⟨tw, body, htw, heq, hlines, hclosed⟩
+  · rw [h, ok.hp]; exact ⟨fits_nil _ _, fun _ => closed_nil⟩
+  · rw [heq]
+    obtain ⟨hf1, hc1⟩ := ann_fits cfg ok to.title to.titleJustify o tw B htw ht
+    obtain ⟨hf2, hc2⟩ := ann_fits cfg ok to.caption to.captionJustify o tw B htw hc
+    have hfb := fits_of_lines_le _ _ _ hlines
+    exact ⟨fits_append _ _ _ _ (closed_append _ _ hc1 hclosed) (fits_append _ _ _ _ hc1 hf1 hfb) hf2,
+      fun _ => closed_append _ _ (closed_append _ _ hc1 hclosed) hc2⟩
+
 theorem good_columns (cfg : Cfg) (ok : CfgOk cfg) (co : ColsOpts) (items : List R) : Good cfg (.columns co items) := by
-  intro o w hw hs hd
+  intro o w hw hd
   rw [render]
   rw [Dom] at hd
-  obtain ⟨ht, hwn⟩ := hd
-  rw [smin] at hs
+  obtain ⟨ht, hwn, hn⟩ := hd
   have hlen := chsR_length cfg items ({} : ColOpts).cellOpts
-  have hsum := sminSum_ge_length cfg.cw items
   rcases columnsConsole_decomp cfg ok.hcw ok.hfl co o (chsR cfg items ({} : ColOpts).cellOpts) w hw hwn
       (by
         intro ch hch k
         obtain ⟨r, rfl⟩ := chsR_mem cfg items _ ch hch
         exact chOf_measure_normal cfg r _ k)
-      (by rw [hlen]; omega) with h | h | ⟨tw, body, htw, heq, hlines, hclosed⟩
+      (by rw [hlen]; exact hn) with h | h | ⟨tw, body, htw, heq, hlines, hclosed⟩
   · rw [h, ok.hp]; exact ⟨fits_nil _ _, fun _ => closed_nil⟩
   · rw [h]; exact ⟨fits_nil _ _, fun _ => closed_nil⟩
   · rw [heq]
     obtain ⟨hf1, hc1⟩ := ann_fits cfg ok co.title Justify.center o tw w htw ht
     have hfb := fits_of_lines_le _ _ _ hlines
-    exact ⟨fits_append _ _ _ _ hc1 hf1 hfb, fun _ => closed_append _ _ hc1 hclosed⟩
+    exact ⟨fits_mono _ _ _ _ (fits_append _ _ _ _ hc1 hf1 hfb) (Nat.le_max_left _ _), fun _ => closed_append _ _ hc1 hclosed⟩
 
 /-! ### the induction -/
 
 mutual
-/-- **C01 by structural induction** over the renderable tree. -/
 theorem good (cfg : Cfg) (ok : CfgOk cfg) : ∀ r : R, Good cfg r
   | .text t => good_text cfg ok t
   | .str t => good_str cfg ok t
   | .padding p e c => good_padding cfg ok p e c
   | .panel po c => good_panel cfg ok po c
   | .align ao c => good_align cfg ok ao c (good cfg ok c)
-  | .constrain k c => good_constrain cfg ok k c (good cfg ok c)
+  | .constrain k c => good_constrain cfg k c (good cfg ok c)
   | .styled c => good_styled cfg c (good cfg ok c)
   | .cast c => good_cast cfg c (good cfg ok c)
   | .opaque c => good_opaque cfg c (good cfg ok c)
@@ -197,5 +239,6 @@ theorem goodL (cfg : Cfg) (ok : CfgOk cfg) : ∀ rs : List R, GoodL cfg rs
   | [] => goodL_nil cfg
   | r :: rs => goodL_cons cfg r rs (good cfg ok r) (goodL cfg ok rs)
 end
+
 
 end RichModel.Layout
